@@ -675,10 +675,30 @@ class World:
             return "unreadable"
         ctx.c.oracle_evals["values"] += 1
         got = got_file if got_file is not None else got_stdout
+        if cmd == "inspect":
+            # the text summary on stdout must carry the same facts as the library summary
+            lines = [l.split() for l in r.stdout.splitlines() if l.strip()]
+            missing = []
+            for key, n in (("channels", len(refv["channels"])), ("samples", len(refv["samples"])), ("parameters", len(refv["parameters"])), ("modifiers", len(refv["modifiers"]))):
+                if [key, str(n)] not in lines:
+                    missing.append(f"summary {key} {n}")
+            for cname, nb in refv["channels"]:
+                if [cname, str(nb)] not in lines:
+                    missing.append(f"channel {cname} {nb}")
+            for sname in refv["samples"]:
+                if [sname] not in lines:
+                    missing.append(f"sample {sname}")
+            for pname, constraint, mtypes in refv["systematics"]:
+                if [pname, constraint, ",".join(sorted(set(mtypes)))] not in lines:
+                    missing.append(f"parameter {pname} {constraint} {sorted(set(mtypes))}")
+            for mname, poi, mpars in refv["measurements"]:
+                want = [mname, poi, ",".join(mpars) if mpars else "(none)"]
+                if want not in lines and ["(*)"] + want not in lines:
+                    missing.append(f"measurement {want}")
+            ctx.check(not missing, "values", dict(sig, cls="values", what="inspect_text"),
+                      lambda: f"inspect text summary disagrees with the library: missing rows {missing[:6]}; {detail_ctx}")
         if cmd == "inspect" and got_file is None:
-            txt = r.stdout
-            ok = all(str(n) in txt for n in refv["samples"] + [c[0] for c in refv["channels"]] + [p[0] for p in refv["parameters"]] + [m[0] for m in refv["measurements"]])
-            ctx.check(ok, "values", dict(sig, cls="values", what="inspect_text"), lambda: f"inspect text lacks names from the library summary; {detail_ctx}")
+            pass
         else:
             ctx.check(self._same(got, refv), "values", dict(sig, cls="values", what="differs"),
                       lambda: f"CLI output differs from the library call: got {json.dumps(got)[:400]} expected {json.dumps(refv)[:400]}; {detail_ctx}")
